@@ -22,6 +22,8 @@ def _leafval(d, w, c1=None):
 def nargs(name, d, opt=None):
     if name in ("ref_assign", "ref_add"):
         return d + 1
+    if name in ("ref_add_elem", "ref_assign_elem", "iadd_elem"):
+        return d + 2
     if name in ("ref_prefix", "posref"):
         return 1
     if name in ("ref_startpos", "posref_startpos"):
@@ -110,6 +112,17 @@ def _apply(name, d, f, t, a, opt):
     elif name == "ref_add":
         r = f.getPayloadRef(*a[:d])
         r += a[d]
+    elif name in ("ref_add_elem", "ref_assign_elem"):
+        # the right operand is an *element* (the CoordPayload a fiber hands out for g[pos]), not a bare value or box
+        g = Fiber([a[d]], [a[d + 1]])
+        r = f.getPayloadRef(*a[:d])
+        if name == "ref_add_elem":
+            r += g[0]
+        else:
+            r <<= g[0]
+    elif name == "iadd_elem":
+        g = Fiber([a[d]], [a[d + 1]])
+        f += g[0]
     elif name == "ref_prefix":
         f.getPayloadRef(a[0])
     elif name in ("ref_startpos", "posref_startpos") and any(f.coords[i] == a[0] for i in range(min(opt["s"], len(f.coords)))):
